@@ -328,6 +328,54 @@ impl Sys {
         self.sync();
     }
 
+    /// Connection "flavours": CONNECT options and CONNACK contents that must not matter for the
+    /// property under test. 0 = bare; 1 = every non-will CONNECT option set (incl. the client's OWN
+    /// receive maximum / maximum packet size, which limit the server, not the client), Session
+    /// Present = 1 and a CONNACK full of other properties.
+    pub fn bring_up_fl(&mut self, connack_props: Vec<Prop>, flavour: u64) {
+        if flavour == 0 {
+            return self.bring_up(connack_props);
+        }
+        let spec = ConnectSpec {
+            client_id: Some("flavoured".into()),
+            keep_alive: Some(10),
+            receive_maximum: Some(2),
+            maximum_packet_size: Some(16),
+            topic_alias_maximum: Some(3),
+            request_response_information: Some(true),
+            request_problem_information: Some(false),
+            user_props: vec![("a".into(), "b".into())],
+            clean_start: Some(false),
+            username: Some("u".into()),
+            password: Some(vec![1, 2, 3]),
+            ..Default::default()
+        };
+        let mut props = vec![
+            Prop::u16(P_TOPIC_ALIAS_MAXIMUM, 7),
+            Prop::str(P_ASSIGNED_CLIENT_ID, "srv-assigned"),
+        ];
+        props.extend(connack_props);
+        props.extend(vec![
+            Prop::u16(P_SERVER_KEEP_ALIVE, 20),
+            Prop::byte(P_RETAIN_AVAILABLE, 0),
+            Prop::byte(P_MAXIMUM_QOS, 1),
+            Prop::user("srv", "x"),
+            Prop::str(P_RESPONSE_INFO, "ri"),
+        ]);
+        self.connect_with(
+            spec,
+            SPacket::Connack {
+                session_present: true,
+                reason: 0,
+                props,
+            },
+        );
+        if self.dead {
+            return;
+        }
+        self.start_run();
+    }
+
     /// connect (default options), CONNACK with the given properties, run()
     pub fn bring_up(&mut self, connack_props: Vec<Prop>) {
         self.connect_with(
